@@ -33,6 +33,8 @@ open_("D24", "C03", "UPDATE of a column of a PRIMARY KEY table fails with 'unexp
 open_("D25", "C03", "after UPDATE, a DELETE followed by a read in the same transaction shows the pre-update version again", "O-res", "history_contains_update", "findings/D25-own-delete-after-update-shows-old-version.json")
 fixed("F1", "C03", "fe2afc8", "INSERT of NULL into a PRIMARY KEY/UNIQUE column failed only after the row was stored: the row stayed and a later committed insert was lost", "O-state", "findings/F1-null-into-unique-column-leaves-row.json")
 fixed("F3", "C03", "daba35a", "with more than three relations (tables + indexes) inserts corrupted catalog rows: 'table not found', panics or process abort (a catalog row replaced by a smaller one moved the page's free space pointer)", "O-res", "findings/F3-many-relations-concurrent-catalog-updates.json")
+open_("D9", "C16", "the 256th version of a table's catalog row (every inserted row adds one) overflows a u8 version counter: panic at storage/tuple.rs:1020 in builds with overflow checks, a worker dies", "O-res", "more_than_32_inserts_per_table", "findings/D9-256th-version-of-a-catalog-row-panics.json")
+open_("D15b", "C07", "after 45-90 inserts into one table (4 KiB pages) the table's catalog row, which keeps a delta per insert, outgrows a page cell: further statements on the table fail with 'Expected overflow frame'", "O-res", "more_than_32_inserts_per_table", "findings/D15b-catalog-row-outgrows-a-page-cell-after-many-inserts.json")
 open_("F3b", "C15", "a table with several indexes: the next CREATE UNIQUE INDEX fails with 'Expected overflow frame' (the table's catalog row has outgrown a page cell and needs an overflow page)", "O-res", "more_than_3_relations", "findings/F3b-catalog-row-of-a-table-with-several-indexes-needs-an-overflow-page.json")
 
 # ---- open findings: constraints (C07) ----
